@@ -109,6 +109,10 @@ func (l *Logger) ModifyRequest(req *http.Request) error {
 	}
 
 	r, err := mv.Reader(opts...)
+	if err != nil && l.decode {
+		// The body is not what its Content-Encoding announces: logged as it is.
+		r, err = mv.Reader()
+	}
 	if err != nil {
 		return err
 	}
@@ -159,6 +163,10 @@ func (l *Logger) ModifyResponse(res *http.Response) error {
 	}
 
 	r, err := mv.Reader(opts...)
+	if err != nil && l.decode {
+		// The body is not what its Content-Encoding announces: logged as it is.
+		r, err = mv.Reader()
+	}
 	if err != nil {
 		return err
 	}
